@@ -42,17 +42,83 @@ Lemma sub_retry_evt_exact head blk conf :
   accept SubRetryEvt head blk conf = true <-> blk <= head.
 Proof. cbn; rewrite negb_true_iff, Z.ltb_ge; lia. Qed.
 
-Lemma single_ok_model p head blk conf :
-  single_ok p head blk conf (accept p head blk conf) = true.
+Lemma accept_buried p head blk conf : accept p head blk conf = true -> buried p head blk conf = true.
 Proof.
-  unfold single_ok. apply andb_true_iff; split.
+  intros Ha. unfold buried. destruct (uses_conf p) eqn:Hu; apply Z.leb_le.
+  - eapply accept_safe_conf; eauto.
+  - eapply accept_safe_finalized; eauto.
+Qed.
+
+(* Prop-level reading of [buried]. *)
+Lemma buried_spec p head b conf :
+  buried p head b conf = true ->
+  (uses_conf p = true -> conf <= confirmations head b) /\ (uses_conf p = false -> b <= head).
+Proof.
+  unfold buried. destruct (uses_conf p); intros Hb; apply Z.leb_le in Hb;
+    split; intros Hu; try discriminate; exact Hb.
+Qed.
+
+Lemma single_ok_model p head blk conf :
+  single_ok p head blk conf (processed p head blk conf) = true.
+Proof.
+  unfold single_ok, processed. apply andb_true_iff; split.
   - destruct (accept p head blk conf) eqn:Ha; [|reflexivity].
-    destruct (uses_conf p) eqn:Hu.
-    + apply Z.leb_le. eapply accept_safe_conf; eauto.
-    + apply Z.leb_le. eapply accept_safe_finalized; eauto.
+    apply accept_buried in Ha. destruct (range_path p); cbn; rewrite Ha; reflexivity.
   - destruct p; try reflexivity.
     destruct (conf + 1 <=? confirmations head blk) eqn:Hc; [|reflexivity].
-    apply Z.leb_le in Hc. apply btc_scan_exact; exact Hc.
+    apply Z.leb_le in Hc. apply btc_scan_exact in Hc. rewrite Hc. cbn. rewrite Z.eqb_refl. reflexivity.
+Qed.
+
+(* Whatever the judge accepts: every block the implementation processed is buried deep enough. *)
+Lemma single_ok_safe p head blk conf blocks b :
+  single_ok p head blk conf blocks = true -> In b blocks ->
+  (uses_conf p = true -> conf <= confirmations head b) /\ (uses_conf p = false -> b <= head).
+Proof.
+  unfold single_ok. intros Hok Hin. apply andb_true_iff in Hok as [Hs _].
+  rewrite forallb_forall in Hs. apply buried_spec. apply Hs. exact Hin.
+Qed.
+
+(* ... and the regular scan did process the cursor block once it had the extra confirmation. *)
+Lemma single_ok_live head blk conf blocks :
+  single_ok BtcScan head blk conf blocks = true -> conf + 1 <= confirmations head blk -> In blk blocks.
+Proof.
+  unfold single_ok. intros Hok Hc. apply andb_true_iff in Hok as [_ Hl].
+  apply Z.leb_le in Hc. rewrite Hc in Hl. apply existsb_exists in Hl as [x [Hin Hx]].
+  apply Z.eqb_eq in Hx. subst. exact Hin.
+Qed.
+
+(* The model processes nothing but the block it was asked about. *)
+Lemma processed_only_blk p head blk conf b : In b (processed p head blk conf) -> b = blk.
+Proof.
+  unfold processed. destruct (accept p head blk conf); [|contradiction].
+  destruct (range_path p); cbn; intuition.
+Qed.
+
+(* Width: an in-domain Substrate retry height that the guards accept fits the 32-bit block number
+   (so the Uint64() conversion on the way to GetBlockHash is exact), and an accepted BTC retry
+   height / scan block is below 2^63 whenever the confirmations are not negative. *)
+Lemma sub_evt_fetch_exact head blk conf :
+  in_domain SubRetryEvt head blk = true -> accept SubRetryEvt head blk conf = true ->
+  0 <= blk < 2 ^ 32.
+Proof.
+  unfold in_domain, in_uint32, in_u128. cbn [accept]. intros Hd Ha.
+  apply negb_true_iff, Z.ltb_ge in Ha.
+  apply andb_true_iff in Hd as [Hh Hb].
+  apply andb_true_iff in Hh as [Hh0 Hh1]. apply andb_true_iff in Hb as [Hb0 Hb1].
+  apply Z.leb_le in Hh0, Hb0. apply Z.ltb_lt in Hh1, Hb1. lia.
+Qed.
+
+Lemma btc_accept_fits_int64 p head blk conf :
+  (p = BtcScan \/ p = BtcRetryMsg) -> in_domain p head blk = true -> 0 <= conf ->
+  accept p head blk conf = true -> blk < 2 ^ 63.
+Proof.
+  intros Hp Hd Hc Ha.
+  assert (Hh : head < 2 ^ 63).
+  { destruct Hp as [-> | ->]; cbn in Hd; unfold in_int64 in Hd;
+      apply andb_true_iff in Hd as [_ Hd]; apply Z.ltb_lt in Hd; exact Hd. }
+  destruct Hp as [-> | ->]; cbn in Ha.
+  - apply negb_true_iff, Z.ltb_ge in Ha. lia.
+  - apply Z.gtb_lt in Ha. lia.
 Qed.
 
 (* ---- the scan loop over arbitrary head histories ---- *)
